@@ -478,3 +478,16 @@ impl<VM: VMBinding> LargeObjectSpace<VM> {
 fn get_super_page(cell: Address) -> Address {
     cell.align_down(BYTES_IN_PAGE)
 }
+
+/// Verification hook: the large-object interior-pointer search.  The method reads no field of the
+/// space (only the VO-bit table and the `Mmapper`), so it is driven without constructing one.
+#[cfg(all(mmtk_verif, feature = "vo_bit"))]
+pub fn verif_find_object_from_internal_pointer<VM: VMBinding>(
+    ptr: Address,
+    max_search_bytes: usize,
+) -> Option<ObjectReference> {
+    let los = std::mem::MaybeUninit::<LargeObjectSpace<VM>>::uninit();
+    let res = unsafe { &*los.as_ptr() }.find_object_from_internal_pointer(ptr, max_search_bytes);
+    std::mem::forget(los);
+    res
+}
